@@ -18,6 +18,7 @@ import (
 	"google.golang.org/grpc/codes"
 	"google.golang.org/grpc/metadata"
 	"google.golang.org/grpc/status"
+	"google.golang.org/protobuf/proto"
 
 	"verifharness/core"
 )
@@ -255,7 +256,9 @@ func (f *fakeServerStream) RecvMsg(m interface{}) error {
 	if len(f.in) == 0 {
 		return io.EOF
 	}
-	*(m.(*tpb.Message)) = *f.in[0] //nolint
+	dst := m.(*tpb.Message)
+	dst.Reset()
+	proto.Merge(dst, f.in[0])
 	f.in = f.in[1:]
 	return nil
 }
